@@ -1,4 +1,4 @@
-From InfOCF Require Import Core Tol SysZ SysW Lex Kz Form Model Spec Diag Mcs Cnf CInf CModel Ocf.
+From InfOCF Require Import Core Tol SysZ SysW Lex Kz Form Model Spec Diag Mcs Cnf CInf CModel Ocf Parse Lexer.
 (* Entry points evaluated by the correspondence check (extracted to OCaml, or by vm_compute). *)
 Definition is_none {A} (o:option A) : bool := match o with None => true | Some _ => false end.
 
@@ -54,3 +54,9 @@ Definition run_zocf (n:nat) (ext:option bool) (facts:list form) (D:list cond) (o
   | Some P => Some (keys_of P, zrun n P (cache0 n) ops) end.
 Definition tpo_back (t:table) (vals:list nat) : list (world * nat) := tpo2ranks (ranks2tpo t) (fun i => nth i vals 0).
 Definition ocf_funs := (frank, accept, marginalize, conditionalize, ranks2tpo, tpo_back).
+
+(* C10 *)
+Definition run_parse_formula := parse_formula_str.
+Definition run_parse_file := parse_file.
+Definition run_parse_queries := parse_queries_str.
+Definition run_cond_text := cond_text.
